@@ -176,6 +176,8 @@ func (in *Interp) equals(T types.Type, x, y value) *Term {
 		return c.Bool(x == y)
 	case *PubKeyObj:
 		return c.Bool(x == y)
+	case *SigObj:
+		return c.Bool(x == y)
 	case *BigObj:
 		return c.Bool(x == y)
 	case nil:
